@@ -181,7 +181,7 @@ package utils
 //@   ensures {C12} [not-a-clean-end] ret3 != io.EOF
 //@   ensures {C20} [no-size] ret0 == 0
 // the part of a header kept for the next read is a copy: the caller's buffer is overwritten by that read
-//@   ensures {C12} [the-stash-is-a-private-copy] !samearray(cr.stash, header) && len(cr.stash) == len(header)
+//@   ensures {C12,C20} [the-stash-is-a-private-copy] !samearray(cr.stash, header) && len(cr.stash) == len(header)
 //@ func (*ChunkReader) handleRdrErr
 //@   ensures {C02,C12} [whether-the-raw-stream-ended-is-left-alone] cr.isEOF == old(cr.isEOF)
 //@   ensures {C12} [an-error-stays-an-error] in1 != nil ==> ret3 != nil
